@@ -35,12 +35,24 @@ def drain(it):
     return out, None
 
 
+FOREIGN = []
+
+
 def call_list(fn):
     try:
         r = fn()
     except Exception as e:  # noqa: BLE001
         return None, type(e).__name__
-    return drain(r)
+    out = drain(r)
+    if isinstance(r, list) and FOREIGN:
+        # the caller owns the list it was given: changing it afterwards (here: appending a node of another result, then
+        # reversing) must not show up in any later result
+        try:
+            r.append(FOREIGN[0])
+            r.reverse()
+        except Exception:  # noqa: BLE001
+            pass
+    return out
 
 
 def call_one(fn):
@@ -55,6 +67,8 @@ def call_one(fn):
 
 def all_paths(jp, env, text, doc, other=None):
     res = {}
+    if not FOREIGN:
+        FOREIGN.append(jp.find("$[0]", [["a node of another result"]])[0])
     res["module.find"] = call_list(lambda: jp.find(text, doc))
     res["module.finditer"] = call_list(lambda: jp.finditer(text, doc))
     res["env.find"] = call_list(lambda: env.find(text, doc))
@@ -196,6 +210,19 @@ def run_shard(spec, rec):
     from jsonpath_rfc9535 import JSONPathEnvironment
     R = random.Random(spec["seed"])
     env = JSONPathEnvironment()
+
+    class PolicyEnv(JSONPathEnvironment):
+        """Documented customisation: compile() is the one place through which every entry point obtains its query."""
+
+        def compile(self, query):  # noqa: A003
+            if query.startswith("~"):
+                query = query[1:]           # relaxed syntax: an optional marker in front of the root identifier
+            elif "policy" in query:
+                from jsonpath_rfc9535 import JSONPathSyntaxError
+                from jsonpath_rfc9535.tokens import Token, TokenType
+                raise JSONPathSyntaxError("refused by policy", token=Token(TokenType.ROOT, "$", 0, query))
+            return super().compile(query)
+    policy_env = PolicyEnv()
     n = 0
     # battery: the query argument is itself a primitive (incl. strings that look like JSON text: no entry point may decode them),
     # and queries so long that evaluation runs out of interpreter stack (every entry point must fail the same way; far from
@@ -246,7 +273,18 @@ def run_shard(spec, rec):
             rec.wal({"query": t, "document": D.short(doc, 300)})
             try:
                 with guard(60):
-                    res, ones = all_paths(jp, env, t, doc, other=D.doc_for(R, q, maxdepth=3, maxwidth=3) if R.random() < 0.5 else None)
+                    use_policy = R.random() < 0.15
+                    if use_policy:
+                        # only the environment's own entry points are comparable here (the module level knows nothing of the subclass)
+                        t2 = "~" + t if R.random() < 0.7 else t.replace("a", "policy", 1) if "a" in t else "~" + t
+                        res, ones = all_paths(policy_env, policy_env, t2, doc)
+                        res = {k.replace("module.", "policy-env(1)."): v for k, v in res.items() if not k.startswith("temporary-env")}
+                        res["module.compile.finditer"] = res["policy-env(1).compile.finditer"]
+                        ones = {k.replace("module.", "policy-env(1)."): v for k, v in ones.items()}
+                        rec.feat("case:environment-subclass-overriding-compile")
+                        t = t2
+                    else:
+                        res, ones = all_paths(jp, env, t, doc, other=D.doc_for(R, q, maxdepth=3, maxwidth=3) if R.random() < 0.5 else None)
             except CaseTimeout:
                 rec.timeout(t)
                 continue
